@@ -62,6 +62,12 @@ async def _case(loop, data, login_first, end_kind):
             await W.run_line(wd, g, b"USER bob")
         n0 = len(g.replies)
         g.send_raw(data)
+        if end_kind.startswith("vanish-now"):
+            # the peer disappears in the same instant, or a few loop iterations later, without reading anything:
+            # the reset lands while the server is still reading / answering what it was sent
+            for _ in range(int(end_kind.partition(":")[2] or 0)):
+                await asyncio.sleep(0)
+            g.vanish()
         await loop.settle()
         await asyncio.sleep(3)  # bounded wait in virtual time: nothing may hang on it
         await loop.settle()
@@ -137,6 +143,11 @@ def run(ctx, compare=True):
     jobs = []
     for fam, data in inputs:
         jobs.append((data, rng.random() < 0.5, rng.choice(["close", "vanish"])))
+    # orderly and garbage endings cut off by a reset before the answer is out (every offset of a few loop turns)
+    for tail in (b"QUIT\r\n", b"PWD\r\nQUIT\r\n", b"\xff\r\n", b"NOOP\r\n", b"EPSV\r\nQUIT\r\n"):
+        for k in range(0, 10):
+            inputs.append(("cut-before-reply", tail))
+            jobs.append((tail, True, "vanish-now:%d" % k))
     mp = multiprocessing.get_context("fork")
     with mp.Pool(min(16, os.cpu_count() or 4)) as pool:
         outs = pool.map(_job, jobs, chunksize=8)
@@ -162,7 +173,7 @@ def run(ctx, compare=True):
             bad = SC.ledger_clean(o["ledger"], {"maximum_connections": 2, "data_ports": None})
             if bad:
                 res.oracle_failures.append({"input": inp, "what": "when everybody is gone: " + "; ".join(bad), "signature": "C19:server:resources-left"})
-        if compare and len(data) < 5000:
+        if compare and len(data) < 5000 and not job[2].startswith("vanish-now"):  # a peer that is gone reads no replies
             lines, n_head, fate = model_lines(data, job[1])
             spans.append((len(all_lines), len(lines), n_head, fate, inp, o))
             all_lines += lines
